@@ -530,26 +530,40 @@ class UfhController(Parent, DeviceHeat):  # UFC (02):
     # def circuits(self) -> dict:  # 000C
     #     return self.circuit_by_id
 
-    @property
-    def heat_demand(self) -> float | None:  # 3150|FC (there is also 3150|FA)
-        return self._msg_value_msg(self._heat_demand, key=self.HEAT_DEMAND)
+    def _live_msg(self, attr: str) -> Message | None:
+        """Return the Message kept in an attr, forgetting it once it has expired."""
+        msg: Message | None = getattr(self, attr)
+        if msg is not None and msg._expired:  # these are not in the msg DB's care
+            setattr(self, attr, None)
+            return None
+        return msg
 
     @property
-    def heat_demands(self) -> dict | None:  # 3150|ufh_idx array
-        # return self._heat_demands.payload if self._heat_demands else None
-        return self._msg_value_msg(self._heat_demands)
+    def heat_demand(self) -> float | None:  # 3150|FC (there is also 3150|FA)
+        return self._msg_value_msg(
+            self._live_msg("_heat_demand"), key=self.HEAT_DEMAND
+        )
+
+    @property
+    def heat_demands(self) -> list | None:  # 3150|ufh_idx array
+        msg = self._live_msg("_heat_demands")
+        return msg.payload if msg else None  # all the circuits, not just the first
 
     @property
     def relay_demand(self) -> dict | None:  # 0008|FC
-        return self._msg_value_msg(self._relay_demand, key=SZ_RELAY_DEMAND)
+        return self._msg_value_msg(
+            self._live_msg("_relay_demand"), key=SZ_RELAY_DEMAND
+        )
 
     @property
     def relay_demand_fa(self) -> dict | None:  # 0008|FA
-        return self._msg_value_msg(self._relay_demand_fa, key=SZ_RELAY_DEMAND)
+        return self._msg_value_msg(
+            self._live_msg("_relay_demand_fa"), key=SZ_RELAY_DEMAND
+        )
 
     @property
     def setpoints(self) -> dict | None:  # 22C9|ufh_idx array
-        if self._setpoints is None:
+        if self._live_msg("_setpoints") is None:
             return None
 
         payload = self._setpoints.payload
